@@ -1223,6 +1223,14 @@ def check_c14(res, tier, replay):
                              rng.randrange(1 << 30), rng.randrange(1, 4), rng.choice([15, 40, 70])))
     else:
         bt_cases = [tuple(c) for c in json.load(open(replay)).get('bt_cases', [])]
+    # reports built directly with the helper API (columns on the main chart before any AddChart), several times in one process
+    if not replay:
+        gp = vlib.run_go(['p0 REPORTPLAIN 3'], nproc=1).get('p0', 'missing')
+        stats['plain_report_renderings'] += 6
+        if not gp.startswith('ok same'):
+            bad += 1
+            res.violation({'cases': [], 'lines': ['REPORTPLAIN 3'], 'go_output': gp[:400],
+                           'oracle': 'a report object starts from nothing but its arguments: the same report built again renders identically'})
     if bt_cases:
         gb = vlib.run_go(['b%d BT %s' % (i, ' '.join(map(str, c))) for i, c in enumerate(bt_cases)], nproc=4)
         for i, c in enumerate(bt_cases):
